@@ -3,7 +3,7 @@ import math
 import cvlib
 from cvlib import fbits, tok_val, esc
 from cvscen import cfg, pos, tf, num
-from cvcomp import COMPONENTS, NAT, WITH_TOTAL_FORCE, grp, vec
+from cvcomp import COMPONENTS, EXTRA, NAT, WITH_TOTAL_FORCE, grp, vec
 
 RULE = ("variables made of one component with total-force support (distance, distanceZ fixed axis and ref2, distanceXY, angle, dihedral, "
         "gyration, rmsd, eigenvector) or a +/-1 combination of two on disjoint atoms, random groups / masses, oneSiteTotalForce, both "
@@ -36,7 +36,7 @@ def one_variable(rng, P, kinds=None, temp=0.0):
         tries = 0
         while True:
             tries += 1
-            t, groups = COMPONENTS[k][1](r2, P, "")
+            t, groups = (COMPONENTS.get(k) or EXTRA[k])[1](r2, P, "")
             atoms = sorted(set(a for g in groups for a in g))
             if len(atoms) <= len(sub):
                 break
@@ -82,7 +82,10 @@ def gen(rng, tier):
         P = [[rng.uniform(-3, 3) for _ in range(3)] for _ in range(NAT)]
         same = rng.rand() < 0.5
         temp = rng.choice([0.0, 0.0, 300.0])
-        r = one_variable(rng, P)
+        sym = len(cases) % 8 == 3      # rmsd with an atomPermutation line, the permuted reference being the one that fits
+        r = one_variable(rng, P, kinds=["rmsd_perm"]) if sym else one_variable(rng, P)
+        if sym:
+            temp = 0.0                 # (the Jacobian term of the symmetry-adapted rmsd is not among the documented ones)
         if r is None:
             continue
         text, info, used = r
